@@ -83,6 +83,16 @@ pub fn skipmeta(seed: u64, thorough: bool) {
         for w in ws {
             let plain = render_text(&w, 0, &po, &mut rng);
             let styled = render_text(&w, 1, &po, &mut rng);
+            if lalr {
+                // F24 guard: never run the real LR parser in-process on an input it loops on
+                let ok = [&plain, &styled].iter().all(|t| match b.tokens(t, 1) {
+                    Ok(toks) => crate::lrrun::lr_sim_terminates(b, &toks, 20_000),
+                    Err(_) => true,
+                });
+                if !ok {
+                    continue;
+                }
+            }
             for rec in [false, true] {
                 let o = Opts { trim: false, recovery: rec, max_depth: None };
                 let a = b.run(&plain, &o);
